@@ -426,6 +426,8 @@ def find_region(path, fn_selector, start_pat, end_pat):
         if end_i is None:
             raise LostAnchor("region `%s` .. $end: no enclosing block end in %r" % (start_pat, fn_selector))
         rt = toks[code[a]:end_i + 1]
+        if not rt:
+            raise LostAnchor("region `%s` .. $end is empty in %r" % (start_pat, fn_selector))
         text = src[rt[0].start:rt[-1].end]
         return Item("region", "%s@%s" % (start_pat[:30], it.name), path, rt, None, _line_of(src, rt[0].start), _line_of(src, rt[-1].end - 1), text, None)
     b = find(end_pat, a)
